@@ -580,4 +580,97 @@ theorem run_events (rule : FrameRule) (bottom : Bottom) (levels : List Level) :
       | errFuture => simpa only [run, refEvents] using hstep
     | cons L' rest' => simpa only [run, refEvents] using hstep
 
+/-! ### later retrievals of the error of a failed chain (round 5) -/
+
+/-- the error STORED ON A TASK (it went through `_accept_error`), relative to the reference frames -/
+structure Stored (e : Err) (fs : List Frame) : Prop where
+  task : e.hasTask = true
+  type : e.hasType = true
+  tb : userFrames e.tb = fs
+
+theorem Stored.inv {e : Err} {fs : List Frame} (h : Stored e fs) : Inv e fs :=
+  ⟨by rw [h.task, h.type], h.tb, by simp [h.task]⟩
+
+theorem escape_hasTask (rule : FrameRule) (slot : Option Frame) (e : Err) : (escape rule slot e).1.hasTask = true := by
+  cases ht : e.hasTask <;> cases hy : e.hasType <;> simp [escape, acceptError, prepareForReraise, ht, hy]
+
+/-- catching the exception changes `__traceback__` only -/
+theorem seen_stored {e : Err} {fs : List Frame} (h : Stored e fs) : Stored (seen e) fs ∧ (seen e).tok = e.tok := by
+  obtain ⟨h1, h2, h3⟩ := h
+  refine ⟨⟨?_, ?_, ?_⟩, ?_⟩ <;> simp [seen, unwind, valueRaises, reraise, h1, h2, h3]
+
+/-- **whatever `__traceback__` holds** (what an earlier consumer saw), a stored error reaches the synchronous caller
+    with the caller's frame followed by the glued frames -/
+theorem resultEvent_stored {e : Err} {fs : List Frame} (h : Stored e fs) :
+    resultEvent (some e) = refResult (some (e.tok, fs)) := by
+  obtain ⟨h1, h2, h3⟩ := h
+  have hcv : userFrames (callerView e) = .caller :: fs := by
+    simp only [userFrames] at h3
+    simp [callerView, unwind, valueRaises, reraise, h2, userFrames, List.filter_cons, isUser, h3]
+  simp [resultEvent, refResult, userFrames_visible, hcv, h3]
+
+theorem retrieveErr_stored (rule : FrameRule) (i : Nat) (r : Retrieval) {e : Err} {fs : List Frame} (h : Stored e fs) :
+    Stored (retrieveErr rule i r e) (match r with | .direct => fs | .viaTask _ => .task (againLv i) :: fs) ∧
+      (retrieveErr rule i r e).tok = e.tok := by
+  cases r with
+  | direct => exact ⟨h, rfl⟩
+  | viaTask aw =>
+    have ha := arrive_frames aw (againLv i) false e fs h.inv
+    have he := escape_inv rule (arrive aw (againLv i) false e).2 (arrive aw (againLv i) false e).1
+      (.task (againLv i) :: fs) (by rw [ha.2.2.1, ha.2.2.2, h.task, h.type]) ha.1
+    have ht := escape_hasTask rule (arrive aw (againLv i) false e).2 (arrive aw (againLv i) false e).1
+    simp only [retrieveErr]
+    refine ⟨⟨ht, ?_, he.1.tb⟩, by rw [he.2, ha.2.1]⟩
+    rw [← he.1.same, ht]
+
+/-- every later retrieval shows the reference frames, however many consumers came before -/
+theorem retrievals_ref (rule : FrameRule) (rs : List Retrieval) :
+    ∀ (i : Nat) (e : Err) (fs : List Frame), Stored e fs →
+      retrievals rule i e rs = refRetrievals i e.tok fs rs := by
+  induction rs with
+  | nil => intros; rfl
+  | cons r rs ih =>
+    intro i e fs h
+    have hr := retrieveErr_stored rule i r h
+    have hs := seen_stored hr.1
+    simp only [retrievals, refRetrievals]
+    rw [resultEvent_stored hr.1, ih (i + 1) _ _ hs.1, hs.2, hr.2]
+    cases r <;> rfl
+
+theorem step_out_hasTask (rule : FrameRule) (lv : Nat) (anc : List Frame) (L : Level) (last : Bool) (child : Run)
+    (e : Err) (h : (step rule lv anc L last child).out = some e) : e.hasTask = true := by
+  have hfin : ∀ slot, (finish rule lv L slot).1 = some e → e.hasTask = true := by
+    intro slot hf
+    cases ho : L.own with
+    | none => simp [finish, ho] at hf
+    | some k =>
+      simp only [finish, ho, Option.some.injEq] at hf
+      rw [← hf]; exact escape_hasTask _ _ _
+  simp only [step] at h
+  cases hco : child.out with
+  | none =>
+    simp only [hco] at h
+    exact hfin _ h
+  | some c =>
+    simp only [hco] at h
+    cases hh : L.handler <;> simp only [hh, Option.some.injEq] at h
+    · rw [← h]; exact escape_hasTask _ _ _
+    · rw [← h]; exact escape_hasTask _ _ _
+    · rw [← h]; exact escape_hasTask _ _ _
+    · rw [← h]; exact escape_hasTask _ _ _
+    · exact hfin _ h
+
+/-- the error of a chain of at least one task is stored on a task -/
+theorem run_out_hasTask (rule : FrameRule) (bottom : Bottom) (L : Level) (rest : List Level) (lv : Nat) (anc : List Frame)
+    (e : Err) (h : (run rule bottom lv anc (L :: rest)).out = some e) : e.hasTask = true := by
+  cases rest with
+  | nil =>
+    cases bottom with
+    | hook r k =>
+      simp only [run, hookRun, Option.some.injEq] at h
+      rw [← h]; simp [hookFails, acceptError, prepareForReraise, unwind, fresh]
+    | none => simp only [run] at h; exact step_out_hasTask _ _ _ _ _ _ _ h
+    | errFuture => simp only [run] at h; exact step_out_hasTask _ _ _ _ _ _ _ h
+  | cons L' rest' => simp only [run] at h; exact step_out_hasTask _ _ _ _ _ _ _ h
+
 end AsynqModel.Debug
